@@ -82,7 +82,7 @@ Record tctx := {
   tc_last_update : option bool;       (* status lastUpdateTime: None = unset, Some e = set, e = older than the grace period *)
   tc_key : bool;                      (* the revision label key is known (it comes from the workload; empty when the workload is gone) *)
   tc_gateway_fails : bool;            (* the provider's API call fails in this invocation (fault injection) *)
-  tc_only_traffic : bool              (* OnlyTrafficRouting: a TrafficRouting object drives the gateway; no canary Service, no pinning *)
+  tc_only_traffic : bool              (* OnlyTrafficRouting (a TrafficRouting object drives the gateway) or disableGenerateCanaryService: no canary Service, no pinning; the canary route points at the stable Service *)
 }.
 Record tres := {
   tr_ok : bool;                       (* DoTrafficRouting / FinalisingTrafficRouting: done.  others: no retry needed *)
@@ -125,6 +125,8 @@ Definition restore_stable_service (c : tctx) (n : net) (g : graces) : tres :=
 
 Definition patch_stable_service (c : tctx) (n : net) (g : graces) : tres :=
   if negb (tc_refs c) then tdone true g else
+  (* OnlyTrafficRouting / disableGenerateCanaryService: nothing is pinned; the call reports "retry" and leaves it to its caller *)
+  if tc_only_traffic c then {| tr_ok := false; tr_err := false; tr_writes := []; tr_graces := g; tr_touched := false |} else
   if negb (n_stable_exists n) then {| tr_ok := true; tr_err := true; tr_writes := []; tr_graces := g; tr_touched := false |} else
   let modified := negb (opt_eqb String.eqb (match n_stable_sel n with Some r => Some r | None => Some ""%string end) (Some (tc_stable_rev c))) in
   let '(retry, g') := with_grace (tc_zero_grace c) GPatchService modified false g in
